@@ -46,7 +46,7 @@ type suScenario struct {
 	Whys    []string
 }
 
-func suTag(v int) string { return fmt.Sprintf("v%d.%d.0", v/10, v%10) }
+func suTag(v int) string { return fmt.Sprintf("v%d.%d.%d", v/10000, v/100%100, v%100) }
 
 func suPayload(v int) []byte {
 	return []byte(fmt.Sprintf("#!/bin/sh\necho crs-toolchain %s\n", suTag(v)))
@@ -181,22 +181,26 @@ func checkC20(c *Ctx) error {
 		keys = append(keys, k)
 	}
 	sort.Strings(keys)
-	binRel, err := c.buildVersioned("v1.0.0")
-	if err != nil {
-		return err
-	}
-	binDev, err := c.buildVersioned("")
-	if err != nil {
-		return err
+	bins := map[int]string{}
+	for _, k := range keys {
+		v := scen[k].Running
+		if _, ok := bins[v]; ok {
+			continue
+		}
+		ver := ""
+		if v != 0 {
+			ver = suTag(v)
+		}
+		b, err := c.buildVersioned(ver)
+		if err != nil {
+			return err
+		}
+		bins[v] = b
 	}
 	var runs int64
 	parallel(len(keys), 12, func(i int) {
 		sc := scen[keys[i]]
-		bin := binRel
-		if sc.Running == 0 {
-			bin = binDev
-		}
-		suReplay(c, fmt.Sprintf("su%d", i), sc, bin, &runs)
+		suReplay(c, fmt.Sprintf("su%d", i), sc, bins[sc.Running], &runs)
 	})
 	for i, k := range keys {
 		sc := scen[k]
@@ -214,7 +218,7 @@ func checkC20(c *Ctx) error {
 	c.Cov["traces_validated_against_impl"] = len(keys)
 	c.Cov["cli_executions"] = runs
 	c.Cov["exhaustive"] = keepMod == 1
-	c.Cov["rule"] = fmt.Sprintf("TLC explores every scenario (catalogue of 0..%s releases from a pool of 18 release shapes x running version {v1.0.0, development build} x 8 fault positions) through the step machine List/Select/Compare/FetchAsset/FetchSums/Verify/Replace and checks Integrity on every state; 1/%d of the scenarios are replayed: the unmodified binary runs against a scripted fake GitHub (CONNECT proxy + TLS with an ad-hoc CA) and its outcome (executable bytes, exit status) must be one the model allows; non-trivial = catalogue not empty and (fault, bad checksum or bad asset)", maxRel, keepMod)
+	c.Cov["rule"] = fmt.Sprintf("TLC explores every scenario (catalogue of 0..%s releases from a pool of 22 release shapes, versions v0.9.0 .. v3.0.0 incl. v2.0.5/v2.0.12/v2.0.13/v2.10.0 x running version {v1.0.0, v2.0.12, development build} x 8 fault positions) through the step machine List/Select/Compare/FetchAsset/FetchSums/Verify/Replace and checks Integrity on every state; 1/%d of the scenarios are replayed: the unmodified binary runs against a scripted fake GitHub (CONNECT proxy + TLS with an ad-hoc CA) and its outcome (executable bytes, exit status) must be one the model allows; non-trivial = catalogue not empty and (fault, bad checksum or bad asset)", maxRel, keepMod)
 	c.Assumptions = append(c.Assumptions, "the fake release service speaks the subset of the GitHub API that go-selfupdate v1.4.1 uses (release list, browser download URLs, asset API)")
 	c.Summary = fmt.Sprintf("states=%d scenarios=%d replayed=%d", st.Distinct, len(scen), len(keys))
 	return nil
